@@ -294,6 +294,29 @@ def run(ctx, only_entry=False):
                "A4 of AsmParser::parse with validate_lines replaced by a stand-in that returns every error variant")
     if only_entry:
         return
+    # ---- the text that is judged is the text that was written ------------------------------
+    # `2a-emulator verify`, the interactive `load` and the runner reach the parser through glue (read_asm_file,
+    # RunnerConfig::run).  "Accepts exactly the language" holds for what the user wrote only if that glue hands the file's
+    # content (the configured program text) to AsmParser::parse as it is: a stripped byte-order mark, a trimmed or
+    # normalised text between the file and the parser makes the tool accept texts the parser rejects (or the reverse).
+    from .. import provenance
+    cg_ = mirutil.call_graph(p)
+    parse_callers = sorted(k for k, v in cg_.items() if ENTRY in v and p.bodies[k].crate in ("L", "B"))
+    want_origin = {"B::helpers::read_asm_file": ("file(arg1)",), "L::runner::RunnerConfig::<'a>::run": ("arg1.program",)}
+    for fn_ in parse_callers:
+        b_ = p.bodies[fn_]
+        got_ = [provenance.origin(b_, mirutil.place_of(t_["args"][0])) for bb_, t_ in mirutil.calls_in(b_)
+                if mirutil.callee_name(t_) == ENTRY]
+        exp_ = want_origin.get(fn_)
+        ok_ = bool(got_) and all(g_ is not None for g_ in got_) and (exp_ is None or all(g_ in exp_ for g_ in got_))
+        chk.ob("entry/text-as-written/%s" % fn_.split("::")[-1], ok_,
+               "the caller hands the text it was given (the content of the file, the configured program) to AsmParser::parse "
+               "unchanged - through borrows, copies and the `?` on the file read only", b_.loc(),
+               "provenance of the parsed text: %s (expected %s)" % (got_, exp_ or "an argument or a file"),
+               "backward provenance over the MIR of the caller (sa/provenance.py)")
+    chk.ob("entry/text-as-written/callers-known", set(want_origin) <= set(parse_callers),
+           "the file reader of the binary and the runner of the library are the callers of the parser", p.bodies[ENTRY].loc(),
+           "callers: %s" % parse_callers)
     # ---- clause 1/2: panic sites -----------------------------------------------------
     from .. import panics
     sites = panics.enumerate_sites(p, sorted(reached_fns))
